@@ -26,8 +26,10 @@ type c10Scenario struct {
 	Fault        string     `json:"fault"`    // none exit0 exit1 cut dup unknown oversize garbage stall
 	FaultAt      int        `json:"fault_at"` // enabled once this many answers were emitted
 	CutBytes     int        `json:"cut_bytes"`
+	FaultName    string     `json:"fault_name,omitempty"`
 	StdinFault   string     `json:"stdin_fault"` // none closedpipe ioerr
 	StdinFaultAt int        `json:"stdin_fault_at"`
+	Sync         bool       `json:"sync_stdin,omitempty"` // the input pipe has io.Pipe's semantics (see fakeScript.SyncStdin)
 	Main         string     `json:"main"` // closewait | stop
 	Bound        int        `json:"bound"`
 }
@@ -70,7 +72,7 @@ func c10RunOne(t *testing.T, sc c10Scenario, prefix []int, expect []gate.PointRe
 	synctest.Test(t, func(t *testing.T) {
 		x = gate.Begin(prefix, expect)
 		obs = &c10Obs{SendRet: map[string]string{}, SendPending: map[string]bool{}}
-		fp = newFakeProc(x, fakeScript{Fault: sc.Fault, FaultAt: sc.FaultAt, CutBytes: sc.CutBytes, StdinFault: sc.StdinFault, StdinFaultAt: sc.StdinFaultAt})
+		fp = newFakeProc(x, fakeScript{Fault: sc.Fault, FaultAt: sc.FaultAt, CutBytes: sc.CutBytes, FaultName: sc.FaultName, StdinFault: sc.StdinFault, StdinFaultAt: sc.StdinFaultAt, SyncStdin: sc.Sync})
 		ctx, cancel := context.WithCancel(context.Background())
 		runner, err := runClient(ctx, fp.starter())
 		if err != nil {
@@ -372,6 +374,40 @@ func c10Scenarios(thorough bool) []c10Scenario {
 			}
 		}
 	}
+	// the input pipe with io.Pipe's semantics: a write (the zero-length body of a request whose
+	// encoding is empty included) completes only when the client reads again, and fails when the
+	// client goes away first
+	syncSets := [][][]string{
+		{{""}},
+		{{"a"}},
+		{{"", "b"}},
+		{{"a"}, {""}},
+		{{"a"}, {"b"}},
+	}
+	if thorough {
+		syncSets = append(syncSets, [][]string{{"a", ""}}, [][]string{{"", ""}}, [][]string{{"a", "b"}, {""}})
+	}
+	for _, ss := range syncSets {
+		total := 0
+		for _, s := range ss {
+			total += len(s)
+		}
+		for _, f := range []string{"none", "exit0", "exit1", "closeout", "garbage", "unknown"} {
+			if !thorough && total > 1 && (f == "unknown" || f == "exit1") {
+				continue
+			}
+			for at := 0; at <= total; at++ {
+				if f == "none" && at > 0 {
+					continue
+				}
+				out = append(out, c10Scenario{Senders: ss, Fault: f, FaultAt: at, StdinFault: "none", Sync: true, Main: "closewait"})
+			}
+		}
+		// the client answers a test while the runner is still writing that request to it, then exits
+		for at := 0; at < total; at++ {
+			out = append(out, c10Scenario{Senders: ss, Fault: "preanswer", FaultName: ss[len(ss)-1][0], FaultAt: at, StdinFault: "none", Sync: true, Main: "closewait"})
+		}
+	}
 	return out
 }
 
@@ -478,7 +514,7 @@ func TestVerifC10Race(t *testing.T) {
 
 func c10RunFree(sc c10Scenario) (*c10Obs, *fakeProc, []gateVerdict) {
 	obs := &c10Obs{SendRet: map[string]string{}, SendPending: map[string]bool{}}
-	fp := newFakeProc(nil, fakeScript{Fault: sc.Fault, FaultAt: sc.FaultAt, CutBytes: sc.CutBytes, StdinFault: sc.StdinFault, StdinFaultAt: sc.StdinFaultAt})
+	fp := newFakeProc(nil, fakeScript{Fault: sc.Fault, FaultAt: sc.FaultAt, CutBytes: sc.CutBytes, FaultName: sc.FaultName, StdinFault: sc.StdinFault, StdinFaultAt: sc.StdinFaultAt, SyncStdin: sc.Sync})
 	ctx, cancel := context.WithCancel(context.Background())
 	defer cancel()
 	runner, err := runClient(ctx, fp.starter())
